@@ -993,6 +993,7 @@ static void *thr_main(void *p)
     return NULL;
 }
 
+static void alarm_noop(int sig) { (void) sig; }
 /* ---- fork() inside a signal handler on the calling thread (op V) */
 static volatile int g_sigfork_child, g_sigfork_done, g_sigfork_parked;
 static volatile pid_t g_sigfork_pid;
@@ -1223,6 +1224,13 @@ static void run_ops(op_t *ops, int nops)
             kill(g_chain->pid[lvl], SIGUSR1);
             for (int ms = 0; ms < 3000 && !g_chain->ack; ms++) usleep(1000);
             if (!g_chain->ack) ev_error("ancestor did not rename");
+            break; }
+        case 'i': { /* the calling program has an interval timer: SIGALRM every <arg> microseconds, handler installed WITHOUT SA_RESTART
+                       (blocking system calls made on its behalf come back with EINTR) */
+            struct sigaction sa; memset(&sa, 0, sizeof sa); sa.sa_handler = alarm_noop; sigaction(SIGALRM, &sa, NULL);
+            struct itimerval it; long us = (long) arg_ll(&op->a[0]);
+            it.it_interval.tv_sec = us / 1000000; it.it_interval.tv_usec = us % 1000000; it.it_value = it.it_interval;
+            if (setitimer(ITIMER_REAL, &it, NULL) < 0) ev_error("setitimer");
             break; }
         case 'q': { /* the calling program has selected a locale (setlocale): args name; LOCPATH comes with the environment */
             char *nm = dupz(op->a[0].p, op->a[0].len);
